@@ -82,6 +82,7 @@ type c09hist struct {
 	revokedAt []int
 	desc      string
 	shared    map[updSpec]*revocation.Update
+	foreign   *world.Rev
 }
 
 func (h *c09hist) build(u updSpec, shared bool) *revocation.Update {
@@ -179,6 +180,18 @@ func newC09Hist(jr *rand.Rand, key *world.Key, R int) *c09hist {
 		h.revokedAt = append(h.revokedAt, 0)
 	}
 	h.desc = fmt.Sprintf("R=%d %s", R, strings.Join(parts, ","))
+	// a second history of the same issuer key (another credential type, or a revocation database that was set up again): its
+	// messages carry the same valid signatures but do not belong to the witnesses above
+	frev, err := world.NewRev(key)
+	if err != nil {
+		panic(err)
+	}
+	for j := 1; j <= R+2; j++ {
+		if _, _, err := frev.RevokeRandom(); err != nil {
+			panic(err)
+		}
+	}
+	h.foreign = frev
 	return h
 }
 
@@ -397,6 +410,32 @@ func c09Apply(r *mon.Run, key *world.Key, h *c09hist, wi int, seq []updSpec, sha
 		if verr := w.Verify(key.PK); verr != nil {
 			fail("C09/witness-verify-fails", fmt.Sprintf("after %s Witness.Verify fails: %v", u, verr), step)
 			return
+		}
+	}
+	// finally the witness is shown updates of the other history of the same key that would take it to a higher index (validly
+	// signed, proper chains, its value not among their events): they cannot be its updates - the update has to fail and leave
+	// the witness exactly as it was (valid where it stood, or still stuck before the event that revoked it)
+	if h.foreign != nil {
+		top := h.foreign.Cur()
+		for _, fb := range []int{abs.index + 1, top} {
+			if fb <= abs.index || fb > top {
+				continue
+			}
+			for _, fa := range []int{1, abs.index + 1} {
+				if fa > fb || fa < 1 {
+					continue
+				}
+				upd := h.foreign.Update(fa, fb)
+				before := snapWitness(w)
+				var err error
+				pv, _ := mon.Try(func() { err = w.Update(key.PK, upd) })
+				after := snapWitness(w)
+				r.Eval("step-foreign-history", outcome(err != nil && pv == nil, pv))
+				if pv != nil || err == nil || after != before {
+					fail("C09/update-of-another-history-applied", fmt.Sprintf("an update [%d..%d] of another history of the same key applied to the witness at index %d: err=%v panic=%v, witness changed=%v (it must fail and leave the witness as it was)", fa, fb, abs.index, err, pv, after != before), len(seq))
+					return
+				}
+			}
 		}
 	}
 }
